@@ -9,9 +9,10 @@ COQ_HEADER = 'From FV Require Import Model.C04_Model.'
 COQ_AGREE = 'C04_agree'
 COQ_MODEL_TARGETS = ['Model/C04_Model']
 RULE = ('grid N 0..12 x bs 1..2N+3 x num_epochs {None,1,2,3} x num_steps {None,0,1,2,5,9} x drop_remainder x '
-        'skip_shuffle, seeds from VERIF_SEED, plus random larger (N, bs); every 9th grid case draws from a dataset obtained by slicing a larger parent; three call forms (hparams object, keywords, hparams '
+        'skip_shuffle, seeds from VERIF_SEED, plus random larger (N, bs); every 9th grid case draws from a dataset obtained by slicing a larger parent; four call forms (hparams object, keywords, view class directly, hparams '
         'object overridden by keywords incl. overrides to None); every view iterated twice + a fresh view + two interleaved '
-        'live iterators; infinite streams observed on a 7-batch prefix; '
+        'live iterators (same view; two different clients\' views) + a pass in pieces + other views of the same dataset in between + kept results; '
+        'ints as python / NumPy scalar / 0-d array; seeds incl. 0 and 2^32-1; num_epochs incl. 0; 7 feature dtypes; infinite streams observed on a 7-batch prefix; '
         'non-trivial = N >= 1 and at least one batch drawn; distinct = distinct case JSON')
 TRUSTED = ['numpy RandomState.shuffle returns a permutation of its argument and is a function of (seed, call history) '
            '(asserted on every recovered window)']
@@ -24,10 +25,10 @@ PREFIX = 7
 
 def generate(tier, rng):
   if tier == 'quick':
-    ns, epochs, steps = range(0, 9), [None, 1, 2, 3], [None, 0, 1, 2, 5, 9]
+    ns, epochs, steps = range(0, 9), [None, 0, 1, 2, 3], [None, 0, 1, 2, 5, 9]
     nrand = 60
   else:
-    ns, epochs, steps = range(0, 13), [None, 1, 2, 3, 4], [None, 0, 1, 2, 5, 9, 17]
+    ns, epochs, steps = range(0, 13), [None, 0, 1, 2, 3, 4], [None, 0, 1, 2, 5, 9, 17]
     nrand = 400
   i = 0
   for n in ns:
@@ -36,17 +37,57 @@ def generate(tier, rng):
         for s in steps:
           i += 1
           yield {'n': n, 'bs': bs, 'epochs': e, 'steps': s, 'drop': bool(i % 2), 'skip': i % 5 == 0,
-                 'seed': rng.randrange(1 << 30), 'kw': i % 3 == 0, 'form': [1, 0, 2][i % 3],
+                 'seed': _seed(rng, i), 'kw': i % 3 == 0, 'form': [1, 0, 2, 3][i % 4], 'deliv': i // 4,
                  **({'pslice': _PSLICES[(i // 9) % len(_PSLICES)](n)} if i % 9 == 0 else {})}
           if tier != 'quick':
             yield {'n': n, 'bs': bs, 'epochs': e, 'steps': s, 'drop': not bool(i % 2), 'skip': i % 7 == 0,
-                   'seed': rng.randrange(1 << 30), 'kw': i % 3 == 1, 'form': [2, 1, 0][i % 3]}
+                   'seed': _seed(rng, i + 3), 'kw': i % 3 == 1, 'form': [2, 3, 1, 0][i % 4], 'deliv': i // 4 + 1}
   for _ in range(nrand):
     n = rng.choice([rng.randrange(1, 40), rng.randrange(10, 200)])
     bs = rng.choice([1, 2, 3, rng.randrange(1, 2 * n + 2), n, n + 1, 2 * n])
     yield {'n': n, 'bs': bs, 'epochs': rng.choice([None, 1, 2, 3, 5]), 'steps': rng.choice([None, 0, 1, 3, 8, 20]),
-           'drop': rng.random() < 0.5, 'skip': rng.random() < 0.2, 'seed': rng.randrange(1 << 30), 'kw': False,
-           'form': rng.randrange(3)}
+           'drop': rng.random() < 0.5, 'skip': rng.random() < 0.2, 'seed': _seed(rng, rng.randrange(16)), 'kw': False,
+           'form': rng.randrange(4), 'deliv': rng.randrange(9)}
+
+
+def _seed(rng, i):
+  """Seeds incl. the falsy 0 and the largest legal value 2^32 - 1."""
+  return 0 if i % 8 == 0 else (1 << 32) - 1 if i % 8 == 4 else rng.randrange(1 << 30)
+
+
+def _scalar(v, form):
+  """An int delivered as python int / NumPy scalar / 0-d array; None stays None."""
+  return None if v is None else [int(v), np.int64(v), np.array(v, dtype=np.int64)][form % 3]
+
+
+_BIG = (1 << 24) + 1
+
+
+def _columns(n):
+  return {'x': np.arange(n, dtype=np.int32), 'v': np.arange(n, dtype=np.float32) * 0.5,
+          'img': (np.arange(2 * n).reshape(n, 2) % 251).astype(np.uint8),
+          's3': np.array([b'%d' % (i % 1000) for i in range(n)], dtype='S3'),
+          'obj': np.array(['o%d' % i for i in range(n)], dtype=object),
+          'flag': np.arange(n) % 2 == 0,
+          'big': (np.arange(n, dtype=np.int64) + _BIG).astype(np.int32)}
+
+
+def _feat_ok(b):
+  """Every column of a batch follows its row id x (gather v[indices] keeps dtype and trailing shape)."""
+  x = np.asarray(b['x'])
+  if x.dtype != np.int32 or set(b) != {'x', 'v', 'img', 's3', 'obj', 'flag', 'big', 'y'}:
+    return False
+  xi, k = x.astype(np.int64), len(x)
+  exp = {'y': x + 1, 'v': x.astype(np.float32) * 0.5,
+         'img': ((2 * xi[:, None] + np.arange(2)[None, :]) % 251).astype(np.uint8).reshape(k, 2),
+         's3': np.array([b'%d' % (int(i) % 1000) for i in xi], dtype='S3').reshape(k),
+         'flag': xi % 2 == 0, 'big': (xi + _BIG).astype(np.int32)}
+  for name, w in exp.items():
+    a = np.asarray(b[name])
+    if a.dtype != w.dtype or a.shape != w.shape or not np.array_equal(a, w):
+      return False
+  o = b['obj']
+  return o.dtype == object and o.shape == (k,) and all(o[j] == 'o%d' % int(xi[j]) for j in range(k))
 
 
 # the dataset is parent[a:b:c] for a parent of P rows: [P, a, b, c] selecting exactly n rows
@@ -63,20 +104,32 @@ def _ids(case):
 
 
 def _form(case):
-  """0: hparams object, 1: keywords only, 2: hparams object overridden by keywords."""
+  """0: hparams object, 1: keywords only, 2: hparams object overridden by keywords, 3: the view class directly."""
   return case['form'] if 'form' in case else (1 if case.get('kw') else 0)
 
 
-def _view(case):
+def _view(case, info=None):
+  """The view under test.  `info` (a dict) receives the dataset, its source arrays and the
+  hparams objects handed in together with copies taken before the call."""
+  import copy
   import fedjax
+  from fedjax.core import client_datasets as cd
   n = case['pslice'][0] if case.get('pslice') else case['n']
-  ds = fedjax.ClientDataset({'x': np.arange(n, dtype=np.int32), 'v': np.arange(n, dtype=np.float32) * 0.5},
-                            fedjax.BatchPreprocessor([lambda e: {**e, 'y': e['x'] + 1}]))
+  ex = _columns(n)
+  ds = fedjax.ClientDataset(ex, fedjax.BatchPreprocessor([lambda e: {**e, 'y': e['x'] + 1}]))
   if case.get('pslice'):
     _, a, b, c = case['pslice']
     ds = ds[slice(a, b, c)]
-  kw = dict(batch_size=case['bs'], num_epochs=case['epochs'], num_steps=case['steps'],
-            drop_remainder=case['drop'], seed=case['seed'], skip_shuffle=case['skip'])
+  f = case.get('deliv', 0)
+  kw = dict(batch_size=_scalar(case['bs'], f), num_epochs=_scalar(case['epochs'], f + 1), num_steps=_scalar(case['steps'], f + 2),
+            drop_remainder=case['drop'], seed=_scalar(case['seed'], f // 3), skip_shuffle=case['skip'])
+  hps = []
+
+  def hp(x):
+    hps.append((x, copy.deepcopy(x)))
+    return x
+  if info is not None:
+    info.update(ds=ds, ex=ex, hps=hps, kw=kw)
   form = _form(case)
   if form == 1:
     return ds.shuffle_repeat_batch(**kw)
@@ -84,12 +137,14 @@ def _view(case):
     # a base hparams object that differs from the case in EVERY field (None where the case
     # has a number and a number where the case has None), overridden by keywords
     e, st = case['epochs'], case['steps']
-    base = fedjax.ShuffleRepeatBatchHParams(
+    base = hp(fedjax.ShuffleRepeatBatchHParams(
         batch_size=case['bs'] + 1, num_epochs=1 if e is None else (None if e % 2 else e + 1),
         num_steps=2 if st is None else (None if st % 2 else st + 1), drop_remainder=not case['drop'],
-        seed=case['seed'] + 1, skip_shuffle=not case['skip'])
+        seed=case['seed'] + 1, skip_shuffle=not case['skip']))
     return ds.shuffle_repeat_batch(base, **kw)
-  return ds.shuffle_repeat_batch(fedjax.ShuffleRepeatBatchHParams(**kw))
+  if form == 3:
+    return cd.ShuffleRepeatBatchView(ds, hp(fedjax.ShuffleRepeatBatchHParams(**kw)))
+  return ds.shuffle_repeat_batch(hp(fedjax.ShuffleRepeatBatchHParams(**kw)))
 
 
 class _Recorder:
@@ -169,8 +224,7 @@ def _take(view, case):
   pos = {rid: k for k, rid in enumerate(_ids(case))}
   for b in it:
     x = np.asarray(b['x'])
-    ok &= bool(np.array_equal(np.asarray(b['y']), x + 1) and np.array_equal(np.asarray(b['v']), x.astype(np.float32) * 0.5)
-               and x.dtype == np.int32)
+    ok &= _feat_ok(b)
     ok &= all(int(v) in pos for v in x.tolist())
     out.append([pos.get(int(v), 10 ** 6) for v in x.tolist()])    # positions; 10^6 = not a row of this dataset
   return out, ok
@@ -192,16 +246,77 @@ def _interleaved(view, case, want):
   return got_a == want[:k] and got_b == want[:k]
 
 
+K = 12     # batches looked at by the secondary passes
+
+
+def _first(view, case, k=K):
+  pos = {rid: j for j, rid in enumerate(_ids(case))}
+  return [[pos.get(int(v), 10 ** 6) for v in np.asarray(b['x']).tolist()] for b in itertools.islice(iter(view), k)]
+
+
+def _other_case(case):
+  """Another client / other hyper-parameters: one more row, another batch size and seed."""
+  return {**case, 'n': case['n'] + 1, 'bs': case['bs'] + 1, 'seed': (case['seed'] + 7) % (1 << 32), 'skip': False,
+          'epochs': None, 'steps': None, 'pslice': None}
+
+
 def run(case):
+  info = {}
   with _Recorder() as rec:
-    view = _view(case)                 # constructed and first iterated under the recorder
+    view = _view(case, info)           # constructed and first iterated under the recorder
     b1, ok1 = _take(view, case)
     rec.active = False
+  ex, ds = info['ex'], info['ds']
+  snap = {k: v.copy() for k, v in ex.items()}
+  ids = {k: id(v) for k, v in ex.items()}
+  raw = list(itertools.islice(iter(view), 3))                      # kept by the caller, not copied
+  raw_snap = [{k: np.array(v, copy=True) for k, v in b.items()} for b in raw]
   b2, ok2 = _take(view, case)          # same view, same seed: repeated iteration must be identical
   b3, ok3 = _take(_view(case), case)   # a fresh view built and iterated with the unpatched numpy
   inter = _interleaved(view, case, b1) and _interleaved(_view(case), case, b1)
+  want = b1[:K]
+  kk = len(want)          # secondary passes look at the first kk batches (the full passes b2 / b3 see all)
+  # -- two live iterators over DIFFERENT views (another client, another seed), advanced alternately
+  oc = _other_case(case)
+  want_o = _first(_view(oc), oc, max(kk, 1))
+  pos, pos_o = ({rid: j for j, rid in enumerate(_ids(c))} for c in (case, oc))
+  ia, ib = iter(view), iter(_view(oc))
+  ga, gb = [], []
+  for _ in range(max(len(want), 1)):
+    for it, g, p in ((ia, ga, pos), (ib, gb, pos_o)):
+      for b in itertools.islice(it, 1):
+        g.append([p.get(int(v), 10 ** 6) for v in np.asarray(b['x']).tolist()])
+  inter_views = ga == want and gb == want_o[:len(gb)] and len(gb) == min(len(want_o), max(len(want), 1))
+  # -- one pass consumed in pieces, with a bare iter() and a step of another view in between
+  it = iter(view)
+  first = [b for b in itertools.islice(it, min(2, kk))]
+  iter(view)
+  next(iter(_view(oc)), None)
+  rest = list(itertools.islice(it, max(kk - 2, 0)))
+  pieces = [[pos.get(int(v), 10 ** 6) for v in np.asarray(b['x']).tolist()] for b in first + rest] == want
+  # -- hidden state: other views with other hyper-parameters from the SAME dataset (and the same hparams
+  #    object handed to a second view), then the first-built view once more
+  hidden = True
+  for o in ({**case, 'bs': case['bs'] + 1, 'seed': (case['seed'] + 3) % (1 << 32), 'skip': not case['skip'], 'form': 1},
+            {**case, 'epochs': None, 'steps': 3, 'drop': not case['drop'], 'form': 1}):
+    kwo = dict(batch_size=o['bs'], num_epochs=o['epochs'], num_steps=o['steps'], drop_remainder=o['drop'],
+               seed=o['seed'], skip_shuffle=o['skip'])
+    list(itertools.islice(iter(ds.shuffle_repeat_batch(**kwo)), 5))
+    hidden &= _first(view, case, kk) == want
+  for h, _ in info['hps'][-1:]:
+    if _form(case) != 2:
+      hidden &= _first(ds.shuffle_repeat_batch(h), case, kk) == want
+  hidden &= _first(view, case, kk) == want
+  # -- caller-owned data
+  mutated = any(not (np.array_equal(ex[k], v) and ex[k].dtype == v.dtype) for k, v in snap.items())
+  container = set(ex) == set(snap) and all(id(ex[k]) == ids[k] for k in ex) and all(a == b for a, b in info['hps'])
+  if not case.get('pslice'):
+    container &= ds.raw_examples is ex
+  kept = len(raw) == len(raw_snap) and all(
+      set(a) == set(b) and all(np.array_equal(np.asarray(a[k]), b[k]) for k in a) for a, b in zip(raw, raw_snap))
   return {'batches': b1, 'again': b1 == b2 == b3, 'features_ok': bool(ok1 and ok2 and ok3), 'shuffles': rec.shuffles,
-          'interleaved': bool(inter)}
+          'interleaved': bool(inter), 'interleaved_views': bool(inter_views), 'pieces': bool(pieces),
+          'hidden': bool(hidden), 'mutated': bool(mutated), 'container': bool(container), 'kept': bool(kept)}
 
 
 def hang_key(case):
@@ -271,6 +386,16 @@ def oracle(case, obs):
   if not obs.get('interleaved', True):
     out.append(('interleaved-iterators', 'two live iterators over the same seeded view, advanced alternately, '
                 'do not both reproduce the sequential pass'))
+  for flag, key, what in (
+      ('interleaved_views', 'interleaved-views', 'iterators over two different views (another client, another seed) advanced alternately do not reproduce their sequential passes'),
+      ('pieces', 'pieces', 'a pass consumed in pieces (islice, a bare iter() and another view in between) differs from the sequential pass'),
+      ('hidden', 'hidden-state', 'after other views with other hyper-parameters were built from the same dataset / hparams object and iterated, the first view no longer reproduces its batches'),
+      ('container', 'container', 'the raw_examples mapping (keys / array identities) or an hparams object handed in was changed'),
+      ('kept', 'kept-results', 'batches kept by the caller changed after later iterations')):
+    if not obs.get(flag, True):
+      out.append((key, what))
+  if obs.get('mutated', False):
+    out.append(('mutated', 'iteration mutated the dataset arrays'))
   if not obs['features_ok']:
     out.append(('features', 'a batch column does not follow its row index / preprocessor not applied'))
   if not case['skip'] and n >= 12:   # 1/12! < 3e-9 per case
@@ -301,7 +426,9 @@ def describe(case, obs):
   n, bs = case['n'], case['bs']
   return {'N_vs_bs': 'empty' if n == 0 else 'lt' if n < bs else 'eq' if n == bs else 'multiple' if n % bs == 0 else 'gt',
           'epochs': case['epochs'], 'steps': case['steps'], 'skip': case['skip'], 'drop': case['drop'],
-          'call_form': ['hparams', 'kwargs', 'override'][_form(case)], 'sliced': bool(case.get('pslice')),
+          'call_form': ['hparams', 'kwargs', 'override', 'view-class'][_form(case)],
+          'scalars': ['int', 'np.int64', '0-d array'][case.get('deliv', 0) % 3],
+          'seed': 'zero' if case['seed'] == 0 else 'max' if case['seed'] == (1 << 32) - 1 else 'other', 'sliced': bool(case.get('pslice')),
           'windows': min(len(obs['batches']) * bs // max(n, 1), 5)}
 
 
